@@ -359,7 +359,7 @@ End Certificate.
 (* ------------------------------------------------------------------ non-vacuity of the hypotheses of duals_identity *)
 Lemma duals_example :
   let l := [SC [(KF 0, 1%Q); (KG 0 0, (- (1))%Q)] Ineq; SC [(KG 0 0, 1%Q); (K1, (- (1))%Q)] Ineq] in
-  wfR l /\ dual_eq (sdp_of l 1 1 0) (fun _ => 1) /\ guard l 1 1 0 [] = true.
+  wfR l /\ dual_eq (sdp_of l 1 1 0) (fun _ => 1) /\ guard l 1 1 0 = true.
 Proof.
   cbv zeta. split; [|split].
   - repeat constructor; cbn; intros H; repeat (destruct H as [H|H]; [discriminate|]); exact H.
